@@ -24,7 +24,11 @@ def build(c, k):
     ad = c["arrays"][k]
     a = core.build_array(ad, k)
     if c.get("small"):
-        a = DimArray(small_values(a.shape, ad.get("vkind", "f"), k), axes=[ax.copy() for ax in a.axes])
+        vals = small_values(a.shape, ad.get("vkind", "f"), k)
+        if ad.get("vkind", "f") == "f":
+            for i in ad.get("nan_at", ()):
+                vals.flat[i] = np.nan
+        a = DimArray(vals, axes=[ax.copy() for ax in a.axes])
     return a
 
 
@@ -179,6 +183,24 @@ class C04(Prop):
                 arrays = gen_arrays(rng, n=2, maxrank=3, allow_empty=rng.random() < 0.1)
                 for a in arrays:
                     a["vkind"] = rng.choice(["f", "f", "i"])
+                if rng.random() < 0.12:
+                    # a fourth dimension name (the quantifier goes up to 4 dimensions), on either or both operands
+                    used = {ax["name"] for a in arrays for ax in a["axes"]}
+                    free = [d for d in gen.DIMS if d not in used]
+                    if free:
+                        d4 = free[0]
+                        l4 = [["n", 5, 1], ["n", 9, 1]]
+                        for a in rng.sample(arrays, rng.randint(1, 2)):
+                            a["axes"].insert(rng.randint(0, len(a["axes"])),
+                                             {"name": d4, "kind": "i", "labels": l4[:rng.randint(1, 2)] if rng.random() < 0.7 else l4[::-1]})
+                for a in arrays:
+                    if a["vkind"] == "f" and rng.random() < 0.2:
+                        # NaN already present in an operand: it propagates like any other value
+                        size = 1
+                        for ax in a["axes"]:
+                            size *= len(ax["labels"])
+                        if size:
+                            a["nan_at"] = sorted(set(rng.randrange(size) for _ in range(rng.randint(1, 2))))
                 c = {"op": "binop", "form": "arrays", "operator": op, "arrays": [gen.clean(a) for a in arrays],
                      "small": rng.random() < 0.35}
                 if op in ("pow",):
